@@ -247,6 +247,9 @@ class Mem:
         for st in keys:
             if st==off and ch[st][1]==n: ch.pop(st); continue
             if st<off+n and st+ch[st][1]>off: s._explode(o,st)
+    def share(s,*names):
+        for n in names:
+            if n in s.objs: s.objs[n]['shared']=True
     def mkarr(s,name,size):
         s.n+=1; s.objs[name]={'size':size,'bytes':{},'ch':{},'arr':z3.Array(name+'_mem',z3.BitVecSort(64),z3.BitVecSort(8))}; return Ptr(name,0)
     def store(s,p,val,nbytes):
@@ -255,6 +258,8 @@ class Mem:
         if p.obj[0]=='@' and TRACK_GLOBALS[0] and not s.objs[p.obj].get('tls'):
             GLOBAL_WRITES.append((p.obj, getattr(s,'where','')))
         o=s.objs[p.obj]
+        if o.get('shared') and TRACK_GLOBALS[0]:      # object other threads may be reading (cache / dataset handed to a VM): thread-side code must not write it
+            GLOBAL_WRITES.append(('shared-object:'+p.obj, getattr(s,'where','')))
         if 'arr' in o:
             off=bv(p.off,64); s.checks.append((p.obj,off,nbytes,o['size'],'store'))
             for k in range(nbytes): o['arr']=z3.Store(o['arr'],off+k,z3.Extract(8*k+7,8*k,bv(val,8*nbytes)))
